@@ -22,6 +22,13 @@ pruned; a directory whose identity is already on the current path is a loop.  Th
 cross-checked against the materialised tree by disk_walk(), the same DFS driven by
 os.listdir/os.stat and (st_dev, st_ino).  Nothing of gemato's bookkeeping (directory_ids
 keyed by dirpath, looked up through dirname, recorded only `if dirnames`) is copied.
+
+Family P ("pairs") puts TWO extra entries next to each other into one directory (tree root or
+a sub-directory), each from the grid {loop link, link to a sibling, real directory holding a
+loop link, link to the second filesystem} x {plain, IGNOREd, dot-named}, named so that they are
+adjacent in the listing, and runs every ordered pair under BOTH listing orders (sorted and
+reversed scandir enumeration) whatever VERIF_SEED is: pruning of one entry must not depend on
+what stands next to it.
 """
 
 import contextlib
@@ -65,10 +72,22 @@ RULE = (
     'in-forest link sets with <= 1 link (n = 3 thorough: all link sets) x IGNORE {none, on x, on each '
     'directory at or above the holder, on the in-forest link} x allow_xdev {on, off} x walkers {the five '
     'above + `gemato verify [-x]` + `gemato verify -k [-x]` + `gemato update [-x]`}, plus every case '
-    'started AT the foreign directory itself (library sub-path verify / update / scan of ".../x").  A case '
-    '= (family, shape, link set, IGNORE variant, start, foreign placement, allow_xdev, walker); distinct '
-    'by construction (finish() checks digests == executions).  Non-trivial = at least one directory '
-    'symlink or foreign object is present and the reference verdict is definite.')
+    'started AT the foreign directory itself (library sub-path verify / update / scan of ".../x").  Family P '
+    '(n = 2..3 quick / 2..4 thorough, no other links): TWO extra entries in one holder directory (every '
+    'directory, tree root and sub-directories, for which a loop-free link target exists: its first child, else '
+    'the first directory that is neither itself nor one of its ancestors) x ALL 144 ORDERED pairs from the '
+    'grid {link back to an ancestor (loop); link to that sibling directory; real directory '
+    'that contains a loop link; link to the second filesystem} x {plain; IGNOREd; dot-named}, i.e. incl. every '
+    'pair of {IGNOREd loop link, IGNOREd sibling link, IGNOREd directory with a loop link, dot-directory with '
+    'a loop link, dot-named loop link, IGNOREd foreign link} and the unpruned controls x loop target {the '
+    'holder itself, the tree root} x listing order {sorted, reversed} (both ALWAYS, independent of VERIF_SEED; '
+    'the entries are named "+p"/".p" and ".q"/"0q" so that they sort next to each other before every other '
+    'directory: each entry of a pair is listed first once, nothing between them, checked per case) x '
+    'allow_xdev {on; off too when a foreign link is in the pair} x the five walkers (create: pairs without '
+    'IGNORE line).  A case = (family, shape, link set, IGNORE variant, start, foreign placement, pair + '
+    'holder + loop target + listing order, allow_xdev, walker); distinct by construction (finish() checks '
+    'digests == executions and the family-P execution count against a re-enumeration).  Non-trivial = at '
+    'least one directory symlink or foreign object is present and the reference verdict is definite.')
 ASSUMPTIONS = [
     'ref_walk() is an independent restatement of the statement (DFS, identities of the directories on the '
     'current path, pruning of hidden names and IGNOREd paths as reached); it is cross-checked on every '
@@ -94,9 +113,12 @@ ASSUMPTIONS = [
     'second filesystem: real (tmpfs scratch vs tempfile.gettempdir()); only the equal-inode-number kind '
     '"ino" is virtual: the name "os" inside gemato.recursiveloader is replaced by a pass-through proxy '
     'whose stat() rewrites st_ino of that one foreign directory; a self-check counts the rewrites',
-    'small scope: <= 5 directories, <= 1 link per directory, one foreign object per case, no '
-    'sub-Manifests, no hidden directories other than a hidden link, scandir order fixed by the harness '
-    '(sorted; reversed for odd VERIF_SEED)',
+    'small scope: <= 5 directories, <= 1 link per directory (family P: exactly two extra entries in ONE '
+    'directory and no other link), one foreign object per case (family P: up to two links to the same '
+    'foreign directory), no sub-Manifests, hidden objects only as a hidden link or a family-P dot-directory, '
+    'scandir order fixed by the harness (sorted; reversed for odd VERIF_SEED; family P: both orders)',
+    'family P observes listing-order dependence only through os.scandir order (what os.walk hands to the '
+    'walkers as dirnames); three or more adjacent prunable entries are not enumerated',
 ]
 
 TOP = 'Manifest'
@@ -114,7 +136,17 @@ WALKERS_S = ('verify_strict', 'verify_keepgoing', 'unregistered', 'update')
 WALKERS_X = WALKERS_L + ('cli_verify', 'cli_verify_k', 'cli_update')
 WALKERS_XS = ('verify_strict', 'verify_keepgoing', 'unregistered', 'update')    # library only: `gemato verify
 # ROOT/p/x` looks for the top-level Manifest above the link TARGET (C15's subject), not above ROOT/p
-MAX_N = {'quick': {'L': 4, 'S': 3, 'X': 3}, 'thorough': {'L': 5, 'S': 4, 'X': 4}}
+MAX_N = {'quick': {'L': 4, 'S': 3, 'X': 3, 'P': 3}, 'thorough': {'L': 5, 'S': 4, 'X': 4, 'P': 4}}
+
+# family P: item = prune prefix ('' plain | 'I' IGNOREd | 'H' dot-named) + kind letter
+#   L link back to an ancestor (loop)   S link to a sibling directory (no loop)
+#   D real directory holding a file and a loop link "up"   X link to the second filesystem
+PAIR_ITEMS = tuple(p + k for k in 'LSDX' for p in ('', 'I', 'H'))
+PAIR_PRUNABLE = ('IL', 'IS', 'ID', 'HD', 'HL', 'IX')      # the six entries no walker may descend into
+PAIR_NAMES = (('+p', '.p'), ('0q', '.q'))                 # slot -> (visible, dot-named); '+' < '.' < '0' < letters
+PAIR_ORDERS = ('sorted', 'reversed')
+PAIR_LOOPS = ('self', 'root')
+PAIR_CONTENT = (b'pair-dir-0', b'pair-dir-1')
 
 
 class BudgetExceeded(BaseException):
@@ -310,17 +342,48 @@ def _j(a, b):
     return a + '/' + b if a else b
 
 
-class Model:
-    """parents/links over nodes 0..n-1; foreign = None | {'at': holder, 'kind': KIND}.
-    Identities: real directory i -> i; foreign directories -> 'X', 'XS'."""
+def pair_kind(item):
+    return item[-1]
 
-    def __init__(self, parents, links, names, hidden=(), foreign=None):
+
+def pair_prune(item):
+    return {'': 'plain', 'I': 'ignore', 'H': 'hidden'}[item[:-1]]
+
+
+def pair_name(slot, item):
+    return PAIR_NAMES[slot][1 if pair_prune(item) == 'hidden' else 0]
+
+
+def pair_sibling(parents, h):
+    """The directory a family-P "sibling" link in holder h points to: a child of h (a true
+    sibling of the link), else a sibling/cousin of h; never h or one of its ancestors."""
+    n = len(parents)
+    kids = [c for c in range(n) if parents[c] == h]
+    if kids:
+        return kids[0]
+    anc = set()
+    d = h
+    while d is not None:
+        anc.add(d)
+        d = parents[d]
+    rest = [j for j in range(n) if j not in anc]
+    return rest[0] if rest else None
+
+
+class Model:
+    """parents/links over nodes 0..n-1; foreign = None | {'at': holder, 'kind': KIND};
+    pair = None | {'at': holder, 'items': [a, b], 'loop': 'self'|'root', 'sib': node} (family P).
+    Identities: real directory i -> i; foreign directories -> 'X', 'XS'; the real directory
+    of pair slot s -> ('P', s)."""
+
+    def __init__(self, parents, links, names, hidden=(), foreign=None, pair=None):
         self.n = len(parents)
         self.parents = tuple(parents)
         self.links = tuple(links)
         self.names = list(names)
         self.hidden = frozenset(hidden)
         self.foreign = foreign
+        self.pair = pair
         self.kids = [[c for c in range(self.n) if parents[c] == i] for i in range(self.n)]
         self.rpath = [''] * self.n
         for i in range(1, self.n):
@@ -350,9 +413,42 @@ class Model:
                 return True
         return False
 
+    @staticmethod
+    def is_foreign(node):
+        return node in ('X', 'XS')
+
+    def xkind(self):
+        if self.foreign is not None:
+            return self.foreign['kind']
+        if self.pair is not None and any(pair_kind(it) == 'X' for it in self.pair['items']):
+            return 'dir'
+        return None
+
+    def pair_loop_target(self):
+        return self.pair['at'] if self.pair['loop'] == 'self' else 0
+
+    def pair_entries(self):
+        """-> [(slot, item, name, target identity)] of the two family-P entries"""
+        out = []
+        pr = self.pair
+        if pr is None:
+            return out
+        for slot, item in enumerate(pr['items']):
+            k = pair_kind(item)
+            tgt = self.pair_loop_target() if k == 'L' else pr['sib'] if k == 'S' else \
+                ('P', slot) if k == 'D' else 'X'
+            out.append((slot, item, pair_name(slot, item), tgt))
+        return out
+
+    def pair_ignores(self):
+        return tuple(_j(self.rpath[self.pair['at']], name) for _s, item, name, _t in self.pair_entries()
+                     if pair_prune(item) == 'ignore')
+
     def children(self, node):
         """-> [(name, kind, payload)], kind in dir|file|xfile|manifest"""
         fo = self.foreign
+        if isinstance(node, tuple) and node[0] == 'P':
+            return [('f', 'file', PAIR_CONTENT[node[1]]), ('up', 'dir', self.pair_loop_target())]
         if isinstance(node, int):
             out = [(self.names[c], 'dir', c) for c in self.kids[node]]
             out.append(('f', 'file', self.content(node)))
@@ -363,14 +459,17 @@ class Model:
                     out.append(('x', 'xfile', FOREIGN_F))
                 else:
                     out.append(('x', 'dir', 'X'))
+            if self.pair is not None and self.pair['at'] == node:
+                out.extend((name, 'dir', tgt) for _s, _it, name, tgt in self.pair_entries())
             if node == 0:
                 out.append((TOP, 'manifest', None))
             return out
         if node == 'X':
-            out = [] if fo['kind'] == 'empty' else [('g', 'xfile', FOREIGN_G)]
-            if fo['kind'] == 'dirsub':
+            xk = self.xkind()
+            out = [] if xk == 'empty' else [('g', 'xfile', FOREIGN_G)]
+            if xk == 'dirsub':
                 out.append(('s', 'dir', 'XS'))
-            if fo['kind'] == 'back':
+            if xk == 'back':
                 out.append(('back', 'dir', fo['at']))
             return out
         if node == 'XS':
@@ -378,7 +477,9 @@ class Model:
         raise ValueError(node)
 
     def ndirs(self):
-        return self.n + (0 if self.foreign is None or self.foreign['kind'] == 'file' else 2)
+        xk = self.xkind()
+        extra = sum(1 for _s, it, _n, _t in self.pair_entries() if pair_kind(it) == 'D')
+        return self.n + extra + (0 if xk is None or xk == 'file' else 2)
 
     def text(self):
         t = shape_text(self.parents, self.names)
@@ -387,6 +488,13 @@ class Model:
         s = t + ('  links: ' + ', '.join(ls) if ls else '  no links')
         if self.foreign:
             s += f'  foreign {self.foreign["kind"]} at {_j(self.rpath[self.foreign["at"]], "x")}'
+        if self.pair:
+            lt = self.pair_loop_target()
+            what = {'L': 'link->' + ('r' if lt == 0 else self.rpath[lt]),
+                    'S': 'link->' + self.rpath[self.pair['sib']],
+                    'D': 'dir{f up->' + ('r' if lt == 0 else self.rpath[lt]) + '}', 'X': 'link->OTHER-FS/D'}
+            s += '  pair in ' + (self.rpath[self.pair['at']] or 'r') + ': ' + ', '.join(
+                f'{name!r}={pair_prune(it)} {what[pair_kind(it)]}' for _s, it, name, _t in self.pair_entries())
         return s
 
 
@@ -414,7 +522,7 @@ def ref_walk(model, start, ignores, allow_xdev):
         if node in anc:
             r.loops.append((rel, node))
             return
-        if not isinstance(node, int) and not allow_xdev:
+        if model.is_foreign(node) and not allow_xdev:
             r.xhits.append(rel)
             r.xhit_dirs.append(rel)
             return
@@ -501,9 +609,26 @@ class Disk:
             with open(os.path.join(self.abs[i], 'f'), 'wb') as f:
                 f.write(m.content(i))
         self.cur = {}            # symlink path -> target
+        self.curdirs = {}        # extra real directory (family P) -> content of its file "f"
+
+    def _want_dirs(self, model):
+        return {os.path.join(self.abs[model.pair['at']], name): PAIR_CONTENT[slot]
+                for slot, it, name, _t in model.pair_entries() if pair_kind(it) == 'D'}
 
     def _want(self, model):
         want = {}
+        for slot, it, name, tgt in model.pair_entries():
+            k = pair_kind(it)
+            here = self.abs[model.pair['at']]
+            lp = os.path.join(here, name)
+            if k == 'D':
+                here, lp, tgt = lp, os.path.join(lp, 'up'), model.pair_loop_target()
+            if k == 'X':
+                if self.other is None:
+                    raise HarnessError('foreign link requested without a second filesystem')
+                want[lp] = os.path.join(self.other, 'D')
+            else:
+                want[lp] = self.abs[tgt] if self.absolute else os.path.relpath(self.abs[tgt], here)
         for i, j in enumerate(model.links):
             if j is None:
                 continue
@@ -520,9 +645,23 @@ class Disk:
 
     def apply(self, model):
         want = self._want(model)
+        wdirs = self._want_dirs(model)
         for p in [p for p, t in self.cur.items() if want.get(p) != t]:
             os.unlink(p)
             del self.cur[p]
+        for d in [d for d in self.curdirs if d not in wdirs]:
+            for p in [p for p in self.cur if p.startswith(d + '/')]:
+                os.unlink(p)
+                del self.cur[p]
+            os.unlink(os.path.join(d, 'f'))
+            os.rmdir(d)
+            del self.curdirs[d]
+        for d, data in wdirs.items():
+            if d not in self.curdirs:
+                os.mkdir(d)
+                with open(os.path.join(d, 'f'), 'wb') as f:
+                    f.write(data)
+                self.curdirs[d] = data
         for p, t in want.items():
             if p not in self.cur:
                 os.symlink(t, p)
@@ -532,6 +671,10 @@ class Disk:
         for p in list(self.cur):
             os.unlink(p)
         self.cur = {}
+        for d in list(self.curdirs):
+            os.unlink(os.path.join(d, 'f'))
+            os.rmdir(d)
+        self.curdirs = {}
         self.remove_manifest()
 
     def write_manifest(self, text):
@@ -689,7 +832,8 @@ def brief(res):
 class Case:
     """Everything that identifies one execution."""
 
-    def __init__(self, fam, parents, links, hidden, ignores, ilabel, start, foreign, allow_xdev, walker, seed):
+    def __init__(self, fam, parents, links, hidden, ignores, ilabel, start, foreign, allow_xdev, walker, seed,
+                 pair=None, order=None):
         self.fam = fam
         self.parents = tuple(parents)
         self.links = tuple(links)
@@ -701,32 +845,44 @@ class Case:
         self.allow_xdev = allow_xdev
         self.walker = walker
         self.seed = seed
+        self.pair = pair            # family P: {'at', 'items', 'loop', 'sib'}
+        self.order = order          # family P: 'sorted' | 'reversed'; None = by seed parity
 
     def model(self):
-        return Model(self.parents, self.links, names_for(self.seed, len(self.parents)), self.hidden, self.foreign)
+        return Model(self.parents, self.links, names_for(self.seed, len(self.parents)), self.hidden, self.foreign,
+                     self.pair)
+
+    def reverse(self):
+        """scandir enumeration order of this execution"""
+        return bool(self.seed % 2) if self.order is None else self.order == 'reversed'
 
     def desc(self):
         fo = None if self.foreign is None else (self.foreign['at'], self.foreign['kind'])
-        return (self.fam, self.parents, self.links, self.hidden, self.ilabel, self.ignores, self.start, fo,
-                self.allow_xdev, self.walker)
+        d = (self.fam, self.parents, self.links, self.hidden, self.ilabel, self.ignores, self.start, fo,
+             self.allow_xdev, self.walker)
+        if self.pair is not None:
+            pr = self.pair
+            d += ((pr['at'], tuple(pr['items']), pr['loop'], pr['sib']), self.order)
+        return d
 
     def to_json(self):
         return {'fam': self.fam, 'parents': [(-1 if p is None else p) for p in self.parents],
                 'links': [(-1 if x is None else x) for x in self.links], 'hidden': list(self.hidden),
                 'ignores': list(self.ignores), 'ilabel': self.ilabel, 'start': self.start,
                 'foreign': self.foreign, 'allow_xdev': self.allow_xdev, 'walker': self.walker,
-                'seed': self.seed}
+                'seed': self.seed, 'pair': self.pair, 'order': self.order}
 
     @classmethod
     def from_json(cls, j):
         return cls(j['fam'], [(None if p == -1 else p) for p in j['parents']],
                    [(None if x == -1 else x) for x in j['links']], j.get('hidden', ()), j.get('ignores', ()),
                    j.get('ilabel', '?'), j.get('start', 0), j.get('foreign'), j.get('allow_xdev', True),
-                   j['walker'], j.get('seed', 0))
+                   j['walker'], j.get('seed', 0), j.get('pair'), j.get('order'))
 
     def text(self, model):
         return (f'{model.text()}  IGNORE {list(self.ignores)}  start={model.path_of(self.start)!r} '
-                f'allow_xdev={self.allow_xdev} walker={self.walker}')
+                f'allow_xdev={self.allow_xdev} walker={self.walker}'
+                + (f' listing={self.order}' if self.order else ''))
 
 
 def expectation(case, model, ref):
@@ -747,6 +903,23 @@ def expectation(case, model, ref):
     return 'must', must, None
 
 
+def pair_listing(case, model):
+    """Names of the directory entries of the pair holder in the order this execution's
+    scandir wrapper hands them out (same key as _counting_scandir)."""
+    return sorted((name for name, kind, _p in model.children(case.pair['at']) if kind == 'dir'),
+                  reverse=case.reverse())
+
+
+def check_pair_listing(case, model):
+    """Family P by construction: the two entries stand next to each other, slot 0 first under
+    sorted enumeration and slot 1 first under reversed enumeration."""
+    names = [name for _s, _it, name, _t in model.pair_entries()]
+    lst = pair_listing(case, model)
+    i, j = lst.index(names[0]), lst.index(names[1])
+    if abs(i - j) != 1 or (i < j) != (case.order == 'sorted') or case.order not in PAIR_ORDERS:
+        raise HarnessError(f'family P entries {names} not adjacent / not in the intended order in {lst}')
+
+
 def check_case(case, disk, stats=None, crosscheck=True):
     """Materialise the links of ``case`` on ``disk``, run its walker, judge.  -> (violation|None, info)"""
     model = case.model()
@@ -761,6 +934,8 @@ def check_case(case, disk, stats=None, crosscheck=True):
     if need * 4 > limit:
         raise HarnessError(f'budget {limit} too tight for the reference walk ({need}) of {case.text(model)}')
     disk.apply(model)
+    if case.pair is not None:
+        check_pair_listing(case, model)
     if crosscheck and not (case.foreign and case.foreign['kind'] == 'ino'):
         dk = disk_walk(disk.root, start_rel, ignores, case.allow_xdev)
         if dk.key() != ref.key() or any(dk.files[p] != ref.files[p] for p in ref.files):
@@ -788,7 +963,7 @@ def check_case(case, disk, stats=None, crosscheck=True):
         fst = os.stat(os.path.join(disk.other, 'D'))
         PROXY.fake = ((fst.st_dev, fst.st_ino), os.stat(disk.abs[case.foreign['at']]).st_ino)
     try:
-        res, calls, extra = execute(walker, disk.root, start_rel, case.allow_xdev, limit, bool(case.seed % 2))
+        res, calls, extra = execute(walker, disk.root, start_rel, case.allow_xdev, limit, case.reverse())
     finally:
         PROXY.fake = None
     got = brief(res)
@@ -848,7 +1023,7 @@ def check_case(case, disk, stats=None, crosscheck=True):
                 v = viol({'check': 'loop_not_reported', 'got': got, 'missed': missed},
                          f'reference: loop at {lp} outside IGNORE => ManifestSymlinkLoop; gemato: {got}{where}')
             elif 'ManifestSymlinkLoop' not in must:
-                kind = case.foreign['kind'] if case.foreign else '?'
+                kind = case.foreign['kind'] if case.foreign else 'pair_link' if case.pair else '?'
                 v = viol({'check': 'xdev_not_reported', 'got': got, 'foreign': kind},
                          f'reference: foreign object at {ref.xhits[:3]} with crossing disallowed => ManifestCrossDevice; '
                          f'gemato: {got}{where}')
@@ -918,7 +1093,7 @@ def judge_written(case, model, ref, disk, after, ign, outside, start_rel, limit,
             'missing+extra' if missing else 'wrong_data_or_duplicate'
         return viol({'check': 'written_entries_wrong', 'what': what},
                     f'written Manifest: missing {missing[:4]}, unexpected {extra[:4]}')
-    with budget(limit, bool(case.seed % 2)):
+    with budget(limit, case.reverse()):
         kw = {} if case.allow_xdev else {'allow_xdev': False}
         o = gem.call(lambda: gem.loader(disk.root, **kw).assert_directory_verifies(start_rel))
     if stats is not None:
@@ -954,7 +1129,8 @@ def features(model, ref):
         seen[node] = seen.get(node, 0) + 1
     if any(k > 1 for k in seen.values()):
         out.add('diamond')
-    lnames = {model.lname(i) for i in range(model.n)} | {'x', 'back'}
+    lnames = {model.lname(i) for i in range(model.n)} | {'x', 'back', 'up'} | {
+        name for _s, it, name, _t in model.pair_entries() if pair_kind(it) != 'D'}
     for rel, _node in ref.visits + ref.loops:
         if sum(1 for c in rel.split('/') if c in lnames) >= 2:
             out.add('chain')
@@ -1019,9 +1195,43 @@ def x_linksets(n, tier):
     return out
 
 
+def pair_placements(tier):
+    """-> [(n, shape index, holder, loop target kind)] of family P"""
+    out = []
+    for n in range(2, MAX_N[tier]['P'] + 1):
+        for si, parents in enumerate(shapes(n)):
+            for h in range(n):
+                if pair_sibling(parents, h) is None:
+                    continue
+                for loop in PAIR_LOOPS:
+                    if h == 0 and loop == 'root':
+                        continue        # the same tree as 'self'
+                    out.append((n, si, h, loop))
+    return out
+
+
+def pair_runs(have_other=True):
+    """Everything family P runs in ONE placement: -> (a, b, order, allow_xdev, walker)"""
+    for a in PAIR_ITEMS:
+        for b in PAIR_ITEMS:
+            has_x = 'X' in (pair_kind(a), pair_kind(b))
+            if has_x and not have_other:
+                continue
+            has_ign = 'ignore' in (pair_prune(a), pair_prune(b))
+            for order in PAIR_ORDERS:
+                for axd in ((True, False) if has_x else (True,)):
+                    for walker in WALKERS_L:
+                        if walker == 'create' and has_ign:
+                            continue
+                        yield a, b, order, axd, walker
+
+
 def shards(tier, seed):
     out = []
     mx = MAX_N[tier]
+    per_placement = sum(1 for _ in pair_runs())
+    for n, si, h, loop in pair_placements(tier):
+        out.append(('P', n, si, (h, loop), per_placement // 5))
     for n in range(1, mx['L'] + 1):
         for si, _p in enumerate(shapes(n)):
             k = 0 if n <= 2 else 1 if n == 3 else 2
@@ -1063,9 +1273,26 @@ def run_shard(spec, tier, seed, scratch):
                 stats.notes.append('family X skipped: tempfile.gettempdir() is on the same device as the scratch')
                 stats.counters['xdev_skipped'] += 1
                 return stats
+        if fam == 'P':
+            other = second_fs(scratch)
+            if other is None:
+                stats.notes.append('family P: pairs with a foreign link skipped (no second filesystem)')
+                stats.counters['xdev_skipped'] += 1
         disk = Disk(scratch, parents, names, seed, other)
         try:
-            if fam == 'X':
+            if fam == 'P':
+                holder, loop = sub
+                nolinks = (None,) * n
+                for a, b, order, axd, walker in pair_runs(other is not None):
+                    pair = {'at': holder, 'items': [a, b], 'loop': loop, 'sib': pair_sibling(parents, holder)}
+                    ignores = Model(parents, nolinks, names, (), None, pair).pair_ignores()
+                    case = Case(fam, parents, nolinks, (), ignores, f'pair:{a}+{b}', 0, None, axd, walker, seed,
+                                pair, order)
+                    serial += 1
+                    v, info = check_case(case, disk, stats, crosscheck=(serial % cross_every == 0))
+                    book(stats, case, info, v)
+                lsets = ()
+            elif fam == 'X':
                 at, kind = sub
                 foreign = {'at': at, 'kind': kind}
                 lsets = x_linksets(n, tier)
@@ -1111,10 +1338,13 @@ SAMPLE_WANT = ('mutual', 'diamond', 'self', 'root', 'chain', 'ino_collision')
 
 def book(stats, case, info, v):
     ref, model = info['ref'], info['model']
-    has_obj = any(x is not None for x in case.links) or case.foreign is not None
+    has_obj = any(x is not None for x in case.links) or case.foreign is not None or case.pair is not None
     stats.case(case.desc(), nontrivial=has_obj and info['verdict'] == 'must')
     c = stats.counters
     w = case.walker
+    if case.pair is not None:
+        book_pair(stats, case, info)
+        return
     if info['verdict'] == 'must':
         c[f'{w}/{"loop" if ref.loops else "noloop"}'] += 1
         if ref.xhits:
@@ -1149,6 +1379,42 @@ def book(stats, case, info, v):
                               'gemato': info['got'], 'scandir_calls': info['calls'], 'budget': info['limit']})
 
 
+def book_pair(stats, case, info):
+    """Family P vacuity bookkeeping.  "first" is the entry the scandir wrapper really lists
+    first in this execution (derived from the names and the order, not from the slot)."""
+    ref, model = info['ref'], info['model']
+    c = stats.counters
+    w = case.walker
+    c['family_P_executions'] += 1
+    if info['verdict'] != 'must':
+        return
+    by_name = {name: it for _s, it, name, _t in model.pair_entries()}
+    listed = [by_name[nm] for nm in pair_listing(case, model) if nm in by_name]
+    where = 'root' if case.pair['at'] == 0 else 'sub'
+    if all(it in PAIR_PRUNABLE for it in listed):
+        # nothing of the pair may be entered: the reference verdict must be a clean pass
+        if info['must'] or ref.loops or ref.xhits:
+            raise HarnessError(f'reference enters a pruned family-P entry: {case.text(model)}')
+        c[f'pair/{w}/{case.order}/{where}'] += 1
+        c[f'pair_first/{w}/{listed[0]}'] += 1
+        c[f'pair_second/{w}/{listed[1]}'] += 1
+        if ref_walk(Model(case.parents, case.links, model.names, (), None,
+                          dict(case.pair, items=[it[-1] for it in case.pair['items']])),
+                    0, set(), case.allow_xdev).key() != ref.key():
+            c[f'pair_pruning_matters/{w}'] += 1
+        if 'IX' in listed and not case.allow_xdev:
+            c[f'pair_xdev_off_ignored/{w}'] += 1
+    else:
+        c['pair_control/' + ('loop' if ref.loops else 'xdev' if ref.xhits else 'walked')] += 1
+    if len(stats.samples) < 2 and ((w == 'verify_strict' and listed == ['ID', 'IL'])
+                                   or (w == 'update' and listed == ['HD', 'IX'] and not case.allow_xdev)):
+        stats.sample({'case': case.text(model), 'listing_of_holder': pair_listing(case, model),
+                      'reference_walk': [r or '.' for r, _ in ref.visits],
+                      'loop_closing_paths': [r for r, _ in ref.loops], 'foreign_hits': ref.xhits,
+                      'expected': sorted(info['must']) or 'terminates, no loop/cross-device error, files verify',
+                      'gemato': info['got'], 'scandir_calls': info['calls'], 'budget': info['limit']})
+
+
 # ---------------------------------------------------------------- replay
 
 def replay(case, scratch):
@@ -1157,7 +1423,7 @@ def replay(case, scratch):
     cs = Case.from_json(case)
     other = None
     try:
-        if cs.foreign is not None:
+        if cs.foreign is not None or (cs.pair is not None and cs.model().xkind() is not None):
             other = second_fs(scratch)
             if other is None:
                 raise HarnessError('replay needs a second filesystem at tempfile.gettempdir()')
@@ -1224,10 +1490,37 @@ def finish(total, tier):
                 errs.append(f'vacuity: walker {w}: no cross-device case')
     else:
         errs.append('no second filesystem: tempfile.gettempdir() is on the scratch device, family X did not run')
+    # ---- family P: every prunable entry listed first AND second next to another prunable one, under
+    #      both listing orders, in the root and in a sub-directory, for every walker
+    have_other = not c.get('xdev_skipped')
+    for w in WALKERS_L:
+        menu = [it for it in PAIR_PRUNABLE if (w != 'create' or pair_prune(it) == 'hidden')
+                and (have_other or pair_kind(it) != 'X')]
+        for order in PAIR_ORDERS:
+            for where in ('root', 'sub'):
+                if not c.get(f'pair/{w}/{order}/{where}'):
+                    errs.append(f'vacuity: walker {w}: no pair of adjacent prunable entries in the {where} '
+                                f'directory under {order} listing')
+        for it in menu:
+            for pos in ('first', 'second'):
+                if not c.get(f'pair_{pos}/{w}/{it}'):
+                    errs.append(f'vacuity: walker {w}: prunable entry {it} never listed {pos} of an adjacent pair')
+        if not c.get(f'pair_pruning_matters/{w}'):
+            errs.append(f'vacuity: walker {w}: no pair case whose verdict depends on the pruning')
+        if have_other and w != 'create' and not c.get(f'pair_xdev_off_ignored/{w}'):
+            errs.append(f'vacuity: walker {w}: no IGNOREd foreign link in a pair with crossing disallowed')
+    for k in ('loop', 'walked') + (('xdev',) if have_other else ()):
+        if not c.get(f'pair_control/{k}'):
+            errs.append(f'vacuity: family P: no unpruned control pair with reference outcome {k!r}')
+    want_p = len(pair_placements(tier)) * sum(1 for _ in pair_runs(have_other))
+    # (count equalities hold for a complete exploration only: a shard that stops early on too many
+    #  violations sets total.capped, and the framework then marks the evidence as not exhaustive)
+    if c.get('family_P_executions', 0) != want_p and not total.capped:
+        errs.append(f'family P ran {c.get("family_P_executions", 0)} executions, re-enumeration gives {want_p}')
     if c.get('budget_exceeded'):
         errs.append(f'the os.scandir budget was exhausted {c["budget_exceeded"]} times: a walker that does not '
                     'terminate (see the violations) or a budget that is too small')
-    if len(total.states) != total.evaluations:
+    if len(total.states) != total.evaluations and not total.capped:
         errs.append(f'case descriptors are not distinct: {len(total.states)} digests for {total.evaluations} executions')
     if total.compared < total.evaluations * 0.8:
         errs.append('vacuity: more than 20% of the executions are DONT_CARE')
@@ -1241,6 +1534,17 @@ def extra_evidence(total, tier):
         'shapes_per_n': {str(n): [shape_text(p) for p in shapes(n)] for n in range(1, mx['L'] + 1)},
         'link_sets_family_L': {str(n): len(shapes(n)) * (n + 1) ** n for n in range(1, mx['L'] + 1)},
         'max_directories': mx,
+        'family_P': {
+            'placements (n, shape, holder, loop target)': [
+                f'{shape_text(shapes(n)[si])} holder={h} loop->{lp}' for n, si, h, lp in pair_placements(tier)],
+            'ordered_pairs': len(PAIR_ITEMS) ** 2, 'items': list(PAIR_ITEMS), 'prunable': list(PAIR_PRUNABLE),
+            'listing_orders': list(PAIR_ORDERS), 'executions': c.get('family_P_executions', 0),
+            'example_tree': Model((None, 0), (None, None), names_for(0, 2), (), None,
+                                  {'at': 0, 'items': ['ID', 'IL'], 'loop': 'self', 'sib': 1}).text()
+            + '  => IGNORE +p, IGNORE 0q; expected: every walker ends without loop error under both listing orders',
+            'adjacent_prunable_pairs_per_walker': {
+                w: sum(v for k, v in c.items() if k.startswith(f'pair/{w}/')) for w in WALKERS_L},
+        },
         'budget': '20*n*n+50 os.scandir calls per execution; use histogram: ' + ', '.join(
             f'{k[11:]}={v}' for k, v in sorted(c.items()) if k.startswith('budget_use_')),
         'budget_exceeded': c.get('budget_exceeded', 0),
